@@ -300,6 +300,8 @@ def gen_cases(ctx, d, rng, tools, scale=1, jobs="1"):
         Case("s2t-gz", "sqfs2tar", ["-c", "gzip", str(img)], "stdout", None),
         Case("rd-u", "rdsquashfs", ["-u", "/", "-p", "@OUT@", str(img)], "tree", None),
         Case("rd-c", "rdsquashfs", ["-c", "big1.bin", str(img)], "stdout", None),
+        Case("rd-x", "rdsquashfs", ["-x", "a.txt", str(img)], "stdout", None),
+        Case("rd-d", "rdsquashfs", ["-d", str(img)], "stdout", None),
     ]
     return cases
 
@@ -792,7 +794,7 @@ def run(ctx):
         "distinct_nontrivial": len(distinct),
         "rule": "every single fault position of every class (write/read/trunc/open/lseek/fsync/close × in/out × EIO/EINTR-then-error(/ENOSPC for writes); "
                 "malloc/calloc/realloc/strdup by project code) found by a counting run, for gensquashfs (-F and -D), tar2sqfs, sqfs2tar (plain and gzip), "
-                "rdsquashfs -u and -c on a generated input (duplicate, fragment, all-zero tails, sparse blocks, hard link, xattrs, export table); "
+                "rdsquashfs -u, -c, -x and -d on a generated input (duplicate, fragment, all-zero tails, sparse blocks, hard link, xattrs, export table); "
                 "gen-many: realloc positions on a 513-inode tree (thorough: all; quick: the last 64 and 100 sampled); non-trivial = distinct (tool, class, innermost two project frames) at which a fault fired",
         "exhaustive": True,
         "samples": samples,
